@@ -10,9 +10,11 @@ T2 (correspondence; the Coq side is evaluated by vm_compute on the same inputs):
               (x hook subsets; iteration order = order of the wraps() calls observed)   vs  run_wrapped
   e2e       : mloda.run_all(..., function_extender={...}) on a generated chain of 2-3 feature groups in SYNC and
               THREADING; per-call logs of recording extenders vs run_calls; results with / without extenders
-In the two known-defect domains (chained raise-after extender; raising wrapped function under a chain) the observation
-may equal the faithful model (defect present -> KNOWN-FINDING) or the ideal spec (defect repaired); anything else is a
-violation.
+Strict: the model follows the code repaired by /repo commit 50d7ec2 and is proved equal to the ideal computation
+(C20_chain_ideal, C20_plan_ideal); every disagreement with it is a VIOLATION, and independently of the model every
+wrapped call under a chain is checked in Python for: wrapped function executed exactly once, every extender of the
+chain entered exactly once, outcome equal to the bare call's (the two former known findings are `fixed` and suppress
+nothing).
 """
 from __future__ import annotations
 
@@ -29,8 +31,6 @@ from lib.vlib import cq_bool, cq_list, cq_nat, cq_z
 
 LEVEL = "proof"
 REQ = ["MV.Model.Extender", "MV.Spec.ExtenderSpec"]
-KF_RA = "C20-raise-after-double-call"
-KF_FAIL = "C20-failing-wrapped-repeated"
 
 PRIOS = [50, None, 150]          # None = attribute unset -> Extender.priority default 100
 BEHS = ["pass", "rb", "ra"]
@@ -53,17 +53,11 @@ Definition wres (ok : bool) : result nat := if ok then Ok 7%nat else Err Wrapped
 (* composite level: (extender list as given, wrapped returns?) , observed *)
 Definition caseA := ((list extender * bool) * comp nat)%type.
 Definition mA (c : caseA) := composite_call (fst (fst c)) (wrapped (wres (snd (fst c)))).
-Definition iA (c : caseA) := ideal (composite_order (fst (fst c))) (wres (snd (fst c))).
 Definition chkA_model (c : caseA) := comp_eqb (snd c) (mA c).
-Definition chkA_ideal (c : caseA) := comp_eqb (snd c) (iA c).
-Definition chkA_same (c : caseA) := comp_eqb (mA c) (iA c).
 (* wrapped-call level: (iteration order of the set, call kind, wrapped returns?), observed *)
 Definition caseB := ((list extender * kind * bool) * comp nat)%type.
 Definition mB (c : caseB) := match fst c with (o, k, ok) => run_wrapped (kind_hook k) o (wrapped (wres ok)) end.
-Definition iB (c : caseB) := match fst c with (o, k, ok) => ideal_run_wrapped (kind_hook k) o (wres ok) end.
 Definition chkB_model (c : caseB) := comp_eqb (snd c) (mB c).
-Definition chkB_ideal (c : caseB) := comp_eqb (snd c) (iB c).
-Definition chkB_same (c : caseB) := comp_eqb (mB c) (iB c).
 (* plan level *)
 Definition kind_eqb (a b : kind) : bool :=
   match a, b with KValidateInput, KValidateInput | KCalculate, KCalculate | KValidateOutput, KValidateOutput => true
@@ -79,10 +73,7 @@ Definition run_eqb (a b : list (call * list event) * bool) := log_eqb (fst a) (f
 Definition fails_of (f : option call) (c : call) : bool := match f with Some d => call_eqb c d | None => false end.
 Definition caseE := ((list extender * list bool * option call) * (list (call * list event) * bool))%type.
 Definition mE (c : caseE) := match fst c with (o, st, f) => run_calls o (fails_of f) (plan_calls 0 st) end.
-Definition iE (c : caseE) := match fst c with (o, st, f) => ideal_run_calls o (fails_of f) (plan_calls 0 st) end.
 Definition chkE_model (c : caseE) := run_eqb (snd c) (mE c).
-Definition chkE_ideal (c : caseE) := run_eqb (snd c) (iE c).
-Definition chkE_same (c : caseE) := run_eqb (mE c) (iE c).
 """
 
 
@@ -581,56 +572,46 @@ def describe(c: dict) -> str:
             f"exit order={[e[1] for e in t if e[0] == 'exit']} logged={[e[1] for e in t if e[0] == 'logged']}")
 
 
-def classify(rep: vlib.Reporter, level: str, cases: List[dict], terms: List[str], prefix: str, case_type: str,
-             in_kf_superset: Any, kf_label: Any) -> Dict[str, Any]:
-    """obs = model everywhere, except: inside a known-defect domain obs = ideal is accepted as well (defect repaired)."""
-    shard = 350
+def direct_check(exts: List[dict], order: List[int], trace: List[List], chain: bool, wok: bool) -> Optional[str]:
+    """The property itself on one wrapped call, without the model. exts = the extenders wrapping this call, order = the
+    order in which the set was iterated (or the list order), chain = they are protected by _CompositeExtender,
+    wok = the wrapped function returns."""
+    ncalls = sum(1 for e in trace if e[0] == "call")
+    enters = [e[1] for e in trace if e[0] == "enter"]
+    exits = [e[1] for e in trace if e[0] == "exit"]
+    logged = sorted(e[1] for e in trace if e[0] == "logged")
+    by_id = {x["i"]: x for x in exts}
+    if not chain:
+        if not exts and (ncalls != 1 or enters or logged):
+            return f"no extender wraps the call but calls={ncalls} enters={enters} logged={logged}"
+        return None
+    if ncalls == 0:
+        return "wrapped call lost: the wrapped function was not executed under a chain"
+    if ncalls != 1:
+        return f"wrapped function executed {ncalls} times under a chain (expected exactly once)"
+    expect = sorted((i for i in order if i in by_id), key=lambda i: prio_val(by_id[i]["prio"]))  # stable, like sorted()
+    if enters != expect:
+        return f"enter order {enters} differs from 'every extender once in ascending priority order' {expect}"
+    want_exits = [i for i in reversed(expect) if by_id[i]["beh"] == "pass"] if wok else []
+    if exits != want_exits:
+        return f"exit order {exits} differs from {want_exits}"
+    want_logged = sorted(i for i in by_id if by_id[i]["beh"] == "rb" or (wok and by_id[i]["beh"] == "ra"))
+    if logged != want_logged:
+        return f"logged extenders {logged} differ from exactly the raising extenders {want_logged}"
+    return None
+
+
+def strict_level(rep: vlib.Reporter, level: str, cases: List[dict], terms: List[str], prefix: str, case_type: str) -> Dict[str, Any]:
     bad_model, info = vlib.run_cases("C20", f"{level}_model", REQ, f"chk{prefix}_model", terms, case_type=case_type,
-                                     extra_defs=EXTRA, shard=shard)
-    kf_idx = [i for i, c in enumerate(cases) if in_kf_superset(c)]
-    differ_local, _ = vlib.run_cases("C20", f"{level}_same", REQ, f"chk{prefix}_same", [terms[i] for i in kf_idx],
-                                     case_type=case_type, extra_defs=EXTRA, shard=shard) if kf_idx else ([], {})
-    differ = {kf_idx[j] for j in differ_local}        # model <> ideal (decided in Coq)
-    bm = sorted(bad_model)
-    not_ideal_local, _ = vlib.run_cases("C20", f"{level}_ideal", REQ, f"chk{prefix}_ideal", [terms[i] for i in bm],
-                                        case_type=case_type, extra_defs=EXTRA, shard=shard) if bm else ([], {})
-    not_ideal = {bm[j] for j in not_ideal_local}
-    violations, repaired = [], 0
-    for i in bm:
-        if i in differ and i not in not_ideal:
-            repaired += 1          # defect domain, observation equals the spec: /repo was repaired there
-        else:
-            violations.append(i)
-    bms = set(bm)
-    reproduced: Dict[str, List[int]] = {KF_RA: [], KF_FAIL: []}
-    for i in sorted(differ):
-        if i not in bms:
-            reproduced[kf_label(cases[i])].append(i)
-    return {"info": info, "violations": violations, "repaired": repaired, "reproduced": reproduced,
-            "kf_domain": len(differ), "disagreements": len(bm)}
+                                     extra_defs=EXTRA, shard=350)
+    return {"info": info, "violations": sorted(bad_model)}
 
 
-def has_chain_ra(c: dict) -> bool:
+def chain_exts(c: dict, kind: Optional[str] = None) -> List[dict]:
     if c["level"] == "composite":
-        return any(x["beh"] == "ra" for x in c["exts"])
-    if c["level"] == "wrapped":
-        m = [x for x in c["exts"] if c["kind"] in x["hooks"]]
-        return len(m) >= 2 and any(x["beh"] == "ra" for x in m)
-    for k in HOOKS:
-        m = [x for x in c["exts"] if k in x["hooks"]]
-        if len(m) >= 2 and any(x["beh"] == "ra" for x in m):
-            return True
-    return False
-
-
-def kf_superset(c: dict) -> bool:
-    if c["level"] == "e2e":
-        return has_chain_ra(c) or c["fail_at"] is not None
-    return has_chain_ra(c) or not c["wok"]
-
-
-def kf_label(c: dict) -> str:
-    return KF_RA if has_chain_ra(c) else KF_FAIL
+        return c["exts"]
+    k = kind or c["kind"]
+    return [x for x in c["exts"] if k in x["hooks"]]
 
 
 def run(rep: vlib.Reporter, tier: str, seed: int) -> None:
@@ -639,12 +620,14 @@ def run(rep: vlib.Reporter, tier: str, seed: int) -> None:
     pr = vlib.build_props("C20")
     rep.proof(pr)
     rep.coverage["trusted_base"] += [
-        "hand-written model Model/Extender.v of _CompositeExtender.__init__/__call__ (make_wrapper, try/except, fallback), "
+        "hand-written model Model/Extender.v of _CompositeExtender.__init__/__call__ (make_wrapper with tracked_inner, "
+        "try/except, fallback; code after /repo fix 50d7ec2), "
         "ComputeFramework.get_function_extender and the three run_* wrappers; tied by correspondence (T2) on the inputs "
         "listed under coverage",
         "recording extenders (harness/c20.py: Rec20) are deterministic, stateless and pass arguments through unchanged; "
         "calling a function twice is modelled as using its trace twice",
-        "except Exception catches every exception raised by the generated extenders / wrapped functions (RuntimeError)",
+        "except Exception catches every exception raised by the generated extenders / wrapped functions (RuntimeError); a "
+        "recording extender calls through at most once and never swallows the wrapped function's exception",
         "observation: per-thread context set by harness-side wrappers around ComputeFramework.run_calculate_feature / "
         "run_validate_input_features / run_validate_output_features; logging.error observed through a root log handler; "
         "set iteration order observed as the order of the wraps() calls",
@@ -652,46 +635,69 @@ def run(rep: vlib.Reporter, tier: str, seed: int) -> None:
     _install()
     found = False
     dist: Dict[str, Any] = {}
-    kf_hits: Dict[str, Optional[dict]] = {KF_RA: None, KF_FAIL: None}
+
+    def violation(key: str, what: str, c: dict) -> None:
+        nonlocal found
+        rep.finding(key, what, c)
+        found = True
 
     def handle(level: str, cases: List[dict], terms: List[str], prefix: str, ty: str) -> None:
-        nonlocal found
-        r = classify(rep, level, cases, terms, prefix, ty, kf_superset, kf_label)
+        r = strict_level(rep, level, cases, terms, prefix, ty)
         rep.count(len(cases))
-        summary = {**r["info"], "cases": len(cases), "disagreements_with_model": r["disagreements"],
-                   "violations": len(r["violations"]), "known_defect_domain_cases": r["kf_domain"],
-                   "known_defect_domain_observed_repaired": r["repaired"],
-                   "known_defect_reproduced": {k: len(v) for k, v in r["reproduced"].items()}}
-        rep.add(level, summary)
-        for key, idxs in r["reproduced"].items():
-            if idxs and kf_hits[key] is None:
-                pure = [i for i in idxs if (key == KF_RA and (cases[i].get("wok", True) and cases[i].get("fail_at") is None))
-                        or (key == KF_FAIL)]
-                kf_hits[key] = cases[(pure or idxs)[0]]
+        rep.add(level, {**r["info"], "cases": len(cases), "disagreements_with_model": len(r["violations"])})
         for i in r["violations"][:6]:
             c = cases[i]
-            rep.finding(f"{level}:{json.dumps([c['exts'], c.get('kind'), c.get('wok'), c.get('order'), c.get('mode'), c.get('fail_at'), c.get('nsteps')])}",
-                        "observed behaviour differs from the model of the extender chain: " + describe(c), c)
-            found = True
+            violation(f"{level}:{json.dumps([c['exts'], c.get('kind'), c.get('wok'), c.get('order'), c.get('mode'), c.get('fail_at'), c.get('nsteps')])}",
+                      "observed behaviour differs from the model of the extender chain: " + describe(c), c)
+
+    def direct(level: str, cases: List[dict]) -> None:
+        """property evaluated directly on the observation (no model): never lost, never repeated, order, outcome"""
+        nbad, nchain = 0, 0
+        for c in cases:
+            msgs = []
+            if level == "e2e":
+                for s_, k, t in c["log"]:
+                    m = chain_exts(c, k)
+                    failing = c["fail_at"] is not None and tuple(c["fail_at"]) == (s_, k)
+                    nchain += len(m) >= 2
+                    msg = direct_check(m, c["order"], t, len(m) >= 2, not failing)
+                    if msg:
+                        msgs.append(f"step {s_} {k}: {msg}")
+            else:
+                m = chain_exts(c)
+                chain = level == "composite" or len(m) >= 2
+                nchain += chain
+                order = c.get("order") or [x["i"] for x in c["exts"]]
+                msg = direct_check(m, order, c["trace"], chain, c["wok"])
+                if msg:
+                    msgs.append(msg)
+                if chain and c["res"] != (["ok"] if c["wok"] else ["wrapped"]):
+                    msgs.append(f"outcome {c['res']} differs from the bare call's ({'value' if c['wok'] else 'its own exception'})")
+            if msgs:
+                nbad += 1
+                if nbad <= 6:
+                    violation(f"{level}-property:{json.dumps([c['exts'], c.get('kind'), c.get('wok'), c.get('order'), c.get('mode'), c.get('fail_at')])}",
+                              "; ".join(msgs) + " -- " + describe(c), c)
+        rep.coverage[level]["direct_property_checks_on_chains"] = nchain
+        rep.coverage[level]["direct_property_failures"] = nbad
 
     # ---- (A)
     ca = composite_cases(rng, big)
     handle("composite", ca, [termA(c) for c in ca], "A", "caseA")
+    direct("composite", ca)
     for c in ca:
         if len(c["exts"]) >= 2:
             rep.nontrivial(("A", c["exts"], c["wok"]))
     dist["composite_by_size"] = {str(n): sum(1 for c in ca if len(c["exts"]) == n) for n in range(5)}
     dist["composite_results"] = _hist(c["res"][0] for c in ca)
     dist["composite_max_wrapped_calls"] = max(sum(1 for e in c["trace"] if e[0] == "call") for c in ca)
+    dist["composite_with_raise_after"] = sum(1 for c in ca if any(x["beh"] == "ra" for x in c["exts"]))
     rep.coverage["composite"]["exhaustive"] = big
-    for c in ca:
-        if c["res"][0] in ("other", "okdiff"):
-            rep.finding(f"composite-result:{json.dumps(c['exts'])}:{c['wok']}", "unexpected result: " + describe(c), c)
-            found = True
 
     # ---- (B)
     cb = wrapped_cases(rng, big)
     handle("wrapped", cb, [termB(c) for c in cb], "B", "caseB")
+    direct("wrapped", cb)
     for c in cb:
         if n_matching(c) >= 2:
             rep.nontrivial(("B", c["exts"], c["kind"], c["wok"], c["order"]))
@@ -699,14 +705,15 @@ def run(rep: vlib.Reporter, tier: str, seed: int) -> None:
     dist["wrapped_by_matching"] = _hist(n_matching(c) for c in cb)
     dist["wrapped_by_kind"] = _hist(c["kind"] for c in cb)
     dist["wrapped_results"] = _hist(c["res"][0] for c in cb)
+    dist["wrapped_chain_with_raise_after"] = sum(1 for c in cb if n_matching(c) >= 2 and any(x["beh"] == "ra" for x in chain_exts(c)))
+    dist["wrapped_chain_with_raising_wrapped_function"] = sum(1 for c in cb if n_matching(c) >= 2 and not c["wok"])
     dist["wrapped_with_priority_tie_in_chain"] = sum(1 for c in cb if _tie(c))
     dist["wrapped_iteration_order_not_identity"] = sum(1 for c in cb if c["order"] != sorted(c["order"]))
     dist["wrapped_order_not_observed"] = sum(1 for c in cb if not c["order_observed"])
     for c in cb:
         if c["stray"] or c["activations"] != 1:
-            rep.finding(f"wrapped-context:{json.dumps(c['exts'])}:{c['kind']}",
-                        f"events outside the expected single {KIND_METHOD[c['kind']]} activation: " + describe(c), c)
-            found = True
+            violation(f"wrapped-context:{json.dumps(c['exts'])}:{c['kind']}",
+                      f"events outside the expected single {KIND_METHOD[c['kind']]} activation: " + describe(c), c)
 
     # ---- (C)
     specs = e2e_specs(rng, 1200 if big else 120)
@@ -717,24 +724,22 @@ def run(rep: vlib.Reporter, tier: str, seed: int) -> None:
             b = run_e2e([], nsteps, mode, None, 0)
             baseline[(nsteps, mode)] = b["value"]
             if b["failed"] or b["value"] is None:
-                rep.finding(f"e2e-baseline:{nsteps}:{mode}", "run without extenders failed: " + describe(b), b)
-                found = True
+                violation(f"e2e-baseline:{nsteps}:{mode}", "run without extenders failed: " + describe(b), b)
         for exts, nsteps, fail_at in specs:
             ce.append(run_e2e(exts, nsteps, mode, fail_at, rng.getrandbits(30)))
     handle("e2e", ce, [termE(c) for c in ce], "E", "caseE")
+    direct("e2e", ce)
     changed = 0
     for c in ce:
-        if any(len([x for x in c["exts"] if k in x["hooks"]]) >= 2 for k in HOOKS):
+        if any(len(chain_exts(c, k)) >= 2 for k in HOOKS):
             rep.nontrivial(("E", c["exts"], c["nsteps"], c["mode"], c["fail_at"], c["order"]))
         if not c["failed"] and c["value"] != baseline[(c["nsteps"], c["mode"])]:
             changed += 1
-            rep.finding(f"e2e-result:{json.dumps([c['exts'], c['nsteps'], c['mode']])}",
-                        "result with extenders differs from the result without: " + describe(c), c)
-            found = True
+            violation(f"e2e-result:{json.dumps([c['exts'], c['nsteps'], c['mode']])}",
+                      "result with extenders differs from the result without: " + describe(c), c)
         if c["stray"] or not c["orders_agree"]:
-            rep.finding(f"e2e-context:{json.dumps([c['exts'], c['nsteps'], c['mode']])}",
-                        "extender events outside a run_* call or varying set iteration order: " + describe(c), c)
-            found = True
+            violation(f"e2e-context:{json.dumps([c['exts'], c['nsteps'], c['mode']])}",
+                      "extender events outside a run_* call or varying set iteration order: " + describe(c), c)
     dist["e2e_by_mode"] = _hist(c["mode"] for c in ce)
     dist["e2e_failed_runs"] = sum(1 for c in ce if c["failed"])
     dist["e2e_with_failing_wrapped"] = sum(1 for c in ce if c["fail_at"])
@@ -744,27 +749,18 @@ def run(rep: vlib.Reporter, tier: str, seed: int) -> None:
     dist["e2e_results_changed"] = changed
     rep.add("distribution", dist)
 
-    # ---- known findings: witnesses replayed on the implementation on every run (independent of the sampling)
+    # ---- the two former known-finding witnesses (fixed by /repo 50d7ec2), replayed strictly on every run
     w = run_wrapped_real([{"i": 0, "prio": 50, "beh": "pass", "hooks": ["calc"]}, {"i": 1, "prio": None, "beh": "ra", "hooks": ["calc"]},
                           {"i": 2, "prio": 150, "beh": "pass", "hooks": ["calc"]}], "calc", True, 1)
     ncalls = sum(1 for e in w["trace"] if e[0] == "call")
     rep.add("witness_raise_after", {"wrapped_calls": ncalls, "trace": w["trace"], "result": w["res"]})
-    if ncalls == 2 and w["res"] == ["ok"]:
-        rep.finding(KF_RA, "raise-after extender in a chain: wrapped function and inner extenders run twice", w)
-    elif ncalls != 1:
-        rep.finding("witness-raise-after", "raise-after witness: " + describe(w), w)
-        found = True
+    if ncalls != 1 or w["res"] != ["ok"]:
+        violation("witness-raise-after", f"raise-after extender in a chain: wrapped function executed {ncalls} times: " + describe(w), w)
     w2 = run_wrapped_real([{"i": i, "prio": p, "beh": "pass", "hooks": ["vin"]} for i, p in enumerate([50, None, 150])], "vin", False, 2)
     ncalls2 = sum(1 for e in w2["trace"] if e[0] == "call")
-    rep.add("witness_failing_wrapped", {"wrapped_calls": ncalls2, "result": w2["res"]})
-    if ncalls2 == 8 and w2["res"] == ["wrapped"]:
-        rep.finding(KF_FAIL, "raising wrapped function under a chain of 3 pass-through extenders runs 8 times", w2)
-    elif ncalls2 != 1:
-        rep.finding("witness-failing-wrapped", "failing-wrapped witness: " + describe(w2), w2)
-        found = True
-    for key, c in kf_hits.items():
-        if c is not None:
-            rep.finding(key, "reproduced in the generated cases: " + describe(c), c)
+    rep.add("witness_failing_wrapped", {"wrapped_calls": ncalls2, "trace": w2["trace"], "result": w2["res"]})
+    if ncalls2 != 1 or w2["res"] != ["wrapped"]:
+        violation("witness-failing-wrapped", f"raising wrapped function under 3 pass-through extenders executed {ncalls2} times: " + describe(w2), w2)
 
     rep.add("rule", "composite: all lists of <= 4 extenders x 3 priorities (50, default 100, 150; ties) x 3 behaviours x wrapped "
                     "returns/raises (exhaustive in thorough, n<=2 exhaustive + sample in quick); wrapped: sets of <= 4 extenders on a real "
